@@ -24,6 +24,38 @@ CLAIMED = {
                 tech="translation validation of generated Jacobians + structural AST patterns/CFG ordering", ref="3/C03"),
 }
 
+CLAIMED.update({
+    "C01": dict(cat="other",
+                text="Necessary structural clauses of 'reported voltages satisfy the physical power balance': every bus-injection and "
+                     "set-point equation of Line, Shunt/ShuntTD/ShuntSw, PQ (both regimes), PV, Slack, Jumper is proved equal "
+                     "(sympy normal form, symbolic in all parameters, ConstService chain inlined) to an independently written "
+                     "textbook reference; terminals are linked to the right Bus variable; residual assembly (registration, "
+                     "np.add.at accumulation, setters after adders, clear-before/collect-after); the success verdict is dominated "
+                     "by `mis < config.tol` on the max-abs of the full freshly evaluated residual; Newton linear-system layout. "
+                     "Convergence from a flat start and numeric residuals are declined.",
+                note="Trusted: the reference formulas in refs/network_refs.py (derived from the pi-model), sympy normal forms, "
+                     "kvxopt block-column convention. Decides the named clauses, not the behaviour.",
+                tech="DSL normal-form equivalence vs independent reference + AST patterns/CFG dominance + exhaustive flag enumeration",
+                ref="3/C01"),
+    "C04": dict(cat="other",
+                text="For every class registered in daeint.method_map the residual is proved (polynomial normal form) to be the "
+                     "theta-rule of that method name and the iteration matrix to be its derivative; g-scaling pair; update sign "
+                     "table; save-before/restore-on-every-rejected-exit pairing on the CFG; time rewind on rejection; forward "
+                     "abstract interpretation of TDS.calc_h proving deltat <= tstep at h := deltat under fixt, with the tf clip "
+                     "and the switch-time clip post-dominating; acceptance dominated by the bare-tolerance test.",
+                note="Trusted: theta table in the checker, kvxopt block columns. Per-step residual satisfaction and convergence "
+                     "order are numerical and declined.",
+                tech="polynomial normal form of return ASTs + CFG must-pass/guard rules + small abstract interpreter", ref="3/C04"),
+    "C08": dict(cat="other",
+                text="Sign-count predicates partition R (exhaustive over the 7 order types of Re(mu) vs -tol<0<tol); symbolic "
+                     "execution of EIG._reduce in a non-commutative algebra proves As = diag(1/T')(fx - fy gy^-1 gx); "
+                     "typestate 'T-scaled' forbids re-scaling on the zero-time-constant path; reorder permutation idiom; axis-label "
+                     "inference (state/mode) through eig/solve/.T/*/@/subscripts proves the participation-factor normalisation "
+                     "and orientation consistent with the report.",
+                note="Trusted: numpy.linalg.eig column convention, kvxopt linsolve in-place contract. Numerical accuracy declined.",
+                tech="order-type enumeration + non-commutative symbolic execution + axis-type inference + typestate", ref="3/C08"),
+})
+
 NOT_YET = {}
 
 NA = {
